@@ -3,7 +3,7 @@ wire-tree generators, comparison.  Shared by C13 and C14."""
 import os, random, socket, subprocess, time
 from . import core, dp
 
-COLS = [b"a", b"b", b"c"]
+COLS = [b"a", b"b", b"c", b"v", b"v1"]      # v / v1: one name a prefix of the other, values lining up
 
 
 def dataset():
@@ -12,6 +12,9 @@ def dataset():
         r = {b"a": b"%d" % (i % 3), b"b": [b"x", b"y", b"\xc3\xa9", b""][i % 4]}
         if i % 5:
             r[b"c"] = b"v%d" % (i % 7)
+        r[b"v"] = [b"1a", b"1", b"a"][i % 3]
+        if i % 4:
+            r[b"v1"] = [b"a", b"", b"1a"][i % 3]
         rows.append(r)
     rows.append({})
     return dp.Dataset("w", rows, "wire")
@@ -124,7 +127,7 @@ def make_index(scratch, ds, name):
     return out
 
 
-def run_wire(scratch, ds, reqs, mode, index_file, tag):
+def run_wire(scratch, ds, reqs, mode, index_file, tag, extra=()):
     """reqs: list of (rid, [WQ lines]).  Returns (impl {rid: line}, model {rid: line}, rc, err)."""
     lines = ds.lines()
     for rid, qs in reqs:
@@ -133,7 +136,7 @@ def run_wire(scratch, ds, reqs, mode, index_file, tag):
     path = scratch.path("wire-%s.txt" % tag)
     with open(path, "w") as fh:
         fh.write("\n".join(lines) + "\n")
-    p = subprocess.run([scratch.harness(), "wire", path, mode, index_file], cwd=scratch.dir, env=core.GOENV, capture_output=True, timeout=900)
+    p = subprocess.run([scratch.harness(), "wire", path, mode, index_file] + list(extra), cwd=scratch.dir, env=core.GOENV, capture_output=True, timeout=900)
     impl = {}
     for l in p.stdout.decode("utf-8", "replace").splitlines():
         f = l.split(" ", 2)
